@@ -408,6 +408,7 @@ type shardOut struct {
 	Shard        int            `json:"shard"`
 	Mode         string         `json:"mode"`
 	Evaluations  int            `json:"evaluations"`
+	Evaluations2 int            `json:"distinct,omitempty"` // fuzz workers: number of distinct non-trivial fingerprints
 	Fingerprints []string       `json:"fingerprints"`
 	Classes      map[string]int `json:"classes"`
 	Excluded     map[string]int `json:"excluded"`
@@ -730,6 +731,84 @@ func campaignMain[C any](t *testing.T, chk Check[C]) {
 			rt.Fatalf("VIOLATION key=%s", v.Key)
 		}
 	})
+}
+
+// ---------------------------------------------------------------------------
+// FuzzMain: the secondary engine (thorough tier of the in-process checks only). Go's native
+// coverage-guided fuzzer mutates the byte string that rapid.MakeFuzz turns into the generator's
+// choice stream, so generator, property body and oracle are exactly those of the rapid campaign.
+// The fuzzer runs the body in worker processes that are killed when the time is up, so each
+// worker writes its counters to VCHECK_OUT+".fz<pid>" every few thousand evaluations and saves
+// the replay directory of a violation itself before failing. Native fuzzing cannot be pinned to
+// a seed: whatever it finds is reproducible through the saved case.json only.
+func FuzzMain[C any](f *testing.F, chk Check[C]) {
+	if os.Getenv("VCHECK_FUZZ") == "" {
+		f.Skip("the native fuzz tier runs under ./vcheck run <ID> thorough only")
+	}
+	// deterministic starting corpus: choice streams of several lengths (a fixed LCG; this is
+	// corpus material, not a random choice inside the property)
+	x := uint64(0x9E3779B97F4A7C15)
+	for _, n := range []int{0, 8, 64, 256, 1024, 4096} {
+		for k := 0; k < 3; k++ {
+			b := make([]byte, n)
+			for i := range b {
+				x = x*6364136223846793005 + 1442695040888963407
+				b[i] = byte(x >> 56)
+				if k == 1 && i%8 != 0 { // small draws: only the low byte of each 64-bit word is set
+					b[i] = 0
+				}
+			}
+			f.Add(b)
+		}
+	}
+	out := os.Getenv("VCHECK_OUT")
+	var n int
+	savedKeys := map[string]bool{}
+	flushFz := func() {
+		if out == "" {
+			return
+		}
+		recMu.Lock()
+		defer recMu.Unlock()
+		rec.ID, rec.Shard, rec.Mode = PropID(), os.Getpid(), "fuzz"
+		rec.Fingerprints = rec.Fingerprints[:0]
+		rec.Evaluations2 = len(fps)
+		b, _ := json.Marshal(rec)
+		p := fmt.Sprintf("%s.fz%d", out, os.Getpid())
+		_ = os.WriteFile(p+".tmp", b, 0o644)
+		_ = os.Rename(p+".tmp", p)
+	}
+	f.Fuzz(rapid.MakeFuzz(func(rt *rapid.T) {
+		c := chk.Gen(rt)
+		v, infra := runGuard(chk, c)
+		if infra != "" {
+			recMu.Lock()
+			if len(rec.Infra) < 20 {
+				rec.Infra = append(rec.Infra, infra)
+			}
+			recMu.Unlock()
+			flushFz()
+			rt.Skip("infra: " + infra)
+		}
+		n++
+		if v != nil {
+			// the coordinator re-executes a failing input many times while it minimises the
+			// bytes: one saved replay per key and worker is enough
+			if !savedKeys[v.Key] && len(savedKeys) < 3 {
+				savedKeys[v.Key] = true
+				c2, v2 := minimize(chk, c, v)
+				dir := saveReplay(c2, v2)
+				recMu.Lock()
+				rec.Violations = append(rec.Violations, violationOut{Key: v2.Key, Msg: v2.Msg, Replay: dir})
+				recMu.Unlock()
+				flushFz()
+			}
+			rt.Fatalf("VIOLATION key=%s", v.Key)
+		}
+		if n%2000 == 0 {
+			flushFz()
+		}
+	}))
 }
 
 // JSON renders v compactly (for samples and fingerprints).
